@@ -349,7 +349,7 @@ ST_HQ = {"id": "ST-query-history", "text": "after the history the index's candid
 import store_gen_names as _sg
 ST_EXH_TOP = {"id": "ST-top-exhaustive", "text": "as ST-top-history, for EVERY operation sequence of length 1..3 over {add \"a\", add \"b\", clear, limit:=1, limit:=2, "
                                                  "empty-query lookup} that contains an add (generated by bin/gen_store_histories.py), ratings / ids symbolic",
-              "bounds": "152 histories, exhaustive up to length 3 over 6 operations", "opts": dict(ST_OPTS, sched_gb=6),
+              "bounds": "exhaustive up to length 3 over 6 operations (152 histories), plus limit:=1 followed by every sequence of 1-3 operations over 4 operations (56 histories)", "opts": dict(ST_OPTS, sched_gb=6),
               "quick": [], "thorough": _sg.TOP}
 ST_EXH_Q = {"id": "ST-query-exhaustive", "text": "as ST-query-history (candidates for the query \"a\"), for EVERY operation sequence of length 1..3 over {add \"a\", add \"b\", "
                                                  "clear, lookup \"a\", lookup \"b\"} with exactly one add (two records plus lookups exceed 20 GB; those are the hand-picked ST-query-history instances)",
